@@ -445,7 +445,7 @@ theorem norm_commit (d : Db) (id mts : Nat) :
     by_cases h2 : t.discarded = true
     · simp only [if_pos h2, norm_idem, and_self]
     simp only [if_neg h2]
-    by_cases h3 : (keepTogetherOf t && d.opts.managed && mts == 0) = true
+    by_cases h3 : (keepPreOf t && d.opts.managed && mts == 0) = true
     · simp only [if_pos h3, norm_idem, and_self]
     simp only [if_neg h3]
     by_cases h4 : (d.opts.detectConflicts && d.hasConflict t) = true
